@@ -11,6 +11,10 @@ for p in props:
         m = importlib.import_module("props." + pid.lower())  # main module carries LEVEL_TEXT / LEVEL_NOTE
     except ModuleNotFoundError:
         na.append({"property_id": pid, "reason": "check not built yet in this round (see DESIGN.md section 4 for the plan)"}); continue
+    import glob
+    parts = glob.glob(os.path.join(vlib.VERIF, "tools", "props", pid.lower() + "_*.py"))
+    if getattr(m, "PLACEHOLDER", False) and not parts:
+        na.append({"property_id": pid, "reason": "check not built yet in this round (planned: DESIGN.md section 4)"}); continue
     if getattr(m, "NOT_APPLICABLE", None):
         na.append({"property_id": pid, "reason": m.NOT_APPLICABLE}); continue
     checks.append({
